@@ -54,6 +54,7 @@ def leg_a(ctx, rng, n):
         counts = rng.integers(0, cols + 1, size=rows)
         indptr = np.concatenate([[0], np.cumsum(counts)])
         indices = np.concatenate([np.sort(rng.choice(cols, size=c, replace=False)) for c in counts]).astype(np.int64) if counts.sum() else np.zeros(0, dtype=np.int64)
+        g = sparse.GCXS((np.ones(len(indices), dtype=np.int64), indices.copy(), indptr.copy()), shape=(rows, cols), compressed_axes=(0,))
         mode2 = str(rng.choice(["ok", "ok", "rev", "ptr", "col"]))
         if mode2 == "rev" and len(indices) > 1:
             indices = indices[::-1].copy()
@@ -61,7 +62,7 @@ def leg_a(ctx, rng, n):
             indptr[1] = indptr[-1] + 1
         if mode2 == "col" and len(indices):
             indices[-1] = cols
-        g = sparse.GCXS((np.ones(len(indices), dtype=np.int64), indices, indptr), shape=(rows, cols), compressed_axes=(0,))
+        g.indices, g.indptr = indices, indptr  # bypass the constructor on purpose (it rejects the damaged triples)
         want2 = impl.canonical_problem(g) is None
         reqs.append(["gcxs_canonical", indptr.tolist(), indices.tolist(), rows, cols, int(len(indices))])
         metas.append(({"kind": "gcxs", "mode": mode2, "indptr": indptr.tolist(), "indices": indices.tolist(), "shape": [rows, cols]}, want2))
